@@ -1,7 +1,7 @@
 (* C01 — native executables behave as FerretCore's reference semantics prescribes.
    This file: what the reference prescribes for arithmetic (for all operand values).  The tie to the
    compiler is the correspondence run of harness/c01.py (generated programs, compiled and executed). *)
-From Coq Require Import ZArith List Bool.
+From Coq Require Import String ZArith List Bool.
 From FV Require Import Core.Syntax Core.Sem Proofs.CoreArith.
 Local Open Scope Z_scope.
 
@@ -45,6 +45,12 @@ Theorem C01_reference_by_ref_example :
   check_prog [[I32; U8]] byref_sample = TOk tt /\ run [[I32; U8]] byref_sample 5 = Done [[OInt 3]].
 Proof. exact (conj byref_sample_accepted byref_sample_runs). Qed.
 Print Assumptions C01_reference_by_ref_example.
+
+(* non-vacuity for strings: main { print("ab" + "cd", "ab" + "cd" == "abcd"); } is accepted and prints abcd true *)
+Theorem C01_reference_string_example :
+  check_prog [] str_sample = TOk tt /\ run [] str_sample 1 = Done [[OStr "abcd"; OBool true]].
+Proof. exact (conj str_sample_accepted str_sample_runs). Qed.
+Print Assumptions C01_reference_string_example.
 
 (* ---- instruction selection of the native back end, over the table regenerated from the emitter on every run ---- *)
 From FV Require Import Models.Qbe Models.ISel Proofs.ISelSound Proofs.ISelThm gen.Gen_QbeSel.
